@@ -68,6 +68,8 @@ def clause_options(k: int, quick: bool):
 
 X = ["file", "ab", False]
 Y = ["tag", "@", "c1", True]
+D1 = ["desc", "first", "'", False, False]
+D2 = ["desc", "lower", "'", False, False]
 K = ["kind", "o"]
 P = ["prio", 1, 3]
 
@@ -87,6 +89,8 @@ def referencing_queries():
         ("W Y ({a} | X)", None, [[Y, ["sub", [[a], [X]]]]]),
         ("W {a} X | Y {a}", None, [[a, X], [Y, a]]),
         ("W ({a}) ({b}) | {a}", None, [[["sub", [[a]]], ["sub", [[b]]]], [a]]),
+        # the reference stands between two quoted description filters
+        ("W D1 {a} D2", None, [[D1, a, D2]]),
         # a kind / a priority range of the surrounding filter next to the reference
         ("W K {a}", None, [[K, a]]),
         ("W {a} P", None, [[a, P]]),
@@ -333,7 +337,7 @@ def _cases(ctx):
             if i1 != i2:
                 cases.append(["nested-edit", i1, i2, (i1 + i2) % 2 == 0])
     for qtext in ("W {nosuch}", "W o {nosuch}", "S count(note) W {nosuch} #t1", "W {qb} {nosuch}",
-                  "W #t1 | {nosuch}", "W {qb.v3}", "W {qb.}", "W {outer}", "W #t1 {outer2}", "W {qb} | {outer}"):
+                  "W #t1 | {nosuch}", "W 'first' {nosuch} 'lower'", "W \"a\" {nosuch} \"b\" o", "W {qb.v3}", "W {qb.}", "W {outer}", "W #t1 {outer2}", "W {qb} | {outer}"):
         cases.append(["missing", qtext])
     return cases
 
